@@ -35,7 +35,7 @@ TECHNIQUE = "property-based testing (Hypothesis): model-based oracle (determinat
 
 
 def cases(tier):
-    return 2400 if tier == "quick" else 480000
+    return 2400 if tier == "quick" else 240000
 
 
 def strategy(hazards):
